@@ -9,6 +9,7 @@ From Coq Require Import List String NArith Bool.
 From MW Require Import C05.Heap C05.TreeOps C06.Model C06.ModelNesting.
 From MW Require C06.Gen_api C06.ProofsGen C06.Proofs C06.ProofsExtra C07.Proofs.
 From MW Require C06.ProofsNesting C06.ProofsNestingExtra C06.ModelNav C06.ProofsNav C06.ProofsNavFuel.
+From MW Require C06.Gen_nesting C06.ProofsNestingGen.
 Import ListNotations.
 
 (* every attribute name used on a non-module receiver in treecleaner.py / treecleanerhelper.py is defined by
@@ -263,3 +264,13 @@ Theorem C06_fix_nesting_structural_eq_refuted :
     (exists t', nest_step forb_real invis_real eq_id t = NMoved t' /\ lwords t' = lwords t).
 Proof. exact ProofsNestingExtra.fix_nesting_structural_eq_refuted. Qed.
 Print Assumptions C06_fix_nesting_structural_eq_refuted.
+
+(* the tables of the fix_nesting model are the tables of /repo's TreeCleaner.__init__: C06/Gen_nesting.v is
+   regenerated from mwlib/parser/treecleaner.py on every run (vt/gen/c06_nesting.py, which also checks that
+   _mark_nodes compares by identity and that _fix_nesting / _filter_tree have the modelled shape) *)
+Theorem C06_nesting_tables_generated :
+  forbidden_parents = Gen_nesting.gen_forbidden_parents /\
+  (forall c p, forb_real c p = ProofsNestingGen.forb_of Gen_nesting.gen_forbidden_parents c p) /\
+  (forall k, invis_real k = memb k Gen_nesting.gen_invisible).
+Proof. exact ProofsNestingGen.gen_tables_agree. Qed.
+Print Assumptions C06_nesting_tables_generated.
